@@ -182,16 +182,18 @@ theorem doInternal_waits_preceded :
     tryReplaceChecksCurrentFlagThenClosesAndSpawns = true := by
   decide +kernel
 
-/-- … hence a nested `Do` without limiter (limits 0) is a well-formed handler program, on both transports. -/
+/-- … hence a nested `Do` without limiter (limits 0) is a well-formed handler program, on both transports — whether or not the
+    source hands the loop over before the limiter (the proof does not look at those facts). -/
 theorem do_unlimited_wf (udp : Bool) (key k : Nat) :
     waitsPreceded (Model.ReaderPrograms.doProg udp key 0 0 k) = true := by
   have h1 : Model.ReaderPrograms.preceded "Conn.waitForAcknowledge" "select" = true := by decide +kernel
   have h2 : Model.ReaderPrograms.preceded "Conn.doInternal" "select" = true := by decide +kernel
-  have h3 : Model.ReaderPrograms.preceded "LimitParallelRequests.acquireEndpoint" "select" = false := by decide +kernel
-  have h4 : Model.ReaderPrograms.preceded "LimitParallelRequests.Do" "acquire" = false := by decide +kernel
+  cases h3 : (Model.ReaderPrograms.preceded "LimitParallelRequests.acquireEndpoint" "select" ||
+      Model.ReaderPrograms.handed udp "LimitParallelRequests.Do" "LimitParallelRequests.acquireEndpoint") <;>
+  cases h4 : Model.ReaderPrograms.preceded "LimitParallelRequests.Do" "acquire" <;>
   cases udp <;>
-    simp [Model.ReaderPrograms.doProg, Model.ReaderPrograms.limiterPart, Model.ReaderPrograms.ackPart,
-      Model.ReaderPrograms.rep, Model.ReaderPrograms.totalKey, h1, h2, h3, h4, waitsPreceded]
+    simp_all [Model.ReaderPrograms.doProg, Model.ReaderPrograms.limiterPart, Model.ReaderPrograms.ackPart,
+      Model.ReaderPrograms.rep, Model.ReaderPrograms.totalKey, waitsPreceded]
 
 /-! ### Non-vacuity: three requests whose handlers each block in a nested call (queue capacity 0), answered in reverse -/
 
